@@ -30,6 +30,11 @@ fn main() {
     if args[1] == "--worker" {
         worker::worker_main();
     }
+    if args[1] == "--obs-digest" {
+        let seed: u64 = args.get(2).and_then(|s| s.parse().ok()).unwrap_or(1);
+        let n: u64 = args.get(3).and_then(|s| s.parse().ok()).unwrap_or(100);
+        props::c16::obs_digest_main(seed, n);
+    }
     let id = args[1].to_uppercase();
     let seed: u64 = std::env::var("VERIF_SEED").ok().and_then(|s| s.trim().parse::<i64>().ok()).map(|v| v as u64).unwrap_or(1);
     if args.len() >= 4 && args[2] == "--replay" {
